@@ -17,7 +17,7 @@ RULE = ("(i) wrapper towers of depth 0..6 over {functools.partial (positional / 
         "(depth 1..4). (ii) registration sequences (by function, code object, decorator form, partial) over three code objects "
         "two of which are equal-but-distinct (same source compiled twice), for elaborate_frame and unwrap_context_generator; "
         "model = dict keyed by identity, latest registration wins. (iii) the FULL product hide x hide_line x prune x {no "
-        "elaborate, returns None, returns a replacement, returns PRUNE, returns [], returns [item, next_inner]} x {direct, decorator, nested-name} = 144 combinations (exhaustive), "
+        "elaborate, returns None, returns a replacement, returns PRUNE, returns [], returns [item, next_inner]} x {direct, decorator, nested-name} = 144 combinations (exhaustive), and the 120 with a callback once more with the callback given as a falsy callable object, "
         "observed on real frames through extract_since. (iv) IdentityDict against an identity-keyed list model under generated "
         "operation sequences over keys that are == but distinct, unhashable, or change hash. CPython 3.9-3.12. Non-trivial: "
         "tower of depth >= 3 mixing >= 2 wrapper kinds; registration sequence in which exactly one of the equal pair is "
@@ -45,6 +45,9 @@ def nestings(draw):
     # the nested function's name is also used by a sibling closure, so that in the enclosing function it is a cell variable
     # rather than a plain local (co_cellvars, not co_varnames)
     captured = draw(st.booleans())
+    # PEP 695 (3.12+): `def n[T](...)` / `class n[T]:` - the compiler wraps each in a scope of its own
+    generic = draw(st.sampled_from([False, False, True]))
+    tp = "[T]" if generic else ""
     lines = ["def top():"]
     ind = 1
     getter = "top()"
@@ -58,9 +61,9 @@ def nestings(draw):
             lines.append("    " * ind + "def %sx(): return %d" % (n, i))
             lines.append("    " * ind + "def %s(): return %d" % (n[:-1], i))
         if k == "def":
-            lines.append("    " * ind + "def %s(*a):" % n)
+            lines.append("    " * ind + "def %s%s(*a):" % (n, tp))
         else:
-            lines.append("    " * ind + "class %s:" % n)
+            lines.append("    " * ind + "class %s%s:" % (n, tp))
         ind += 1
     lines.append("    " * ind + "return 'leaf'")
     # returns, innermost to outermost
@@ -84,7 +87,7 @@ def nestings(draw):
             expr = "%s()" % expr          # call the function -> returns names[i]
         else:
             expr = "%s.%s" % (expr, names[i])   # class attribute
-    return {"src": "\n".join(lines) + "\n", "path": names, "getter": expr, "kinds": kinds + (["captured_by_sibling"] if captured else [])}
+    return {"src": "\n".join(lines) + "\n", "path": names, "getter": expr, "kinds": kinds + (["captured_by_sibling"] if captured else []) + (["pep695_generic"] if generic else [])}
 
 
 def registry_ops():
@@ -115,6 +118,10 @@ def customize_product():
                                                          "returns_insert"],
                                                         ["direct", "decorator", "nested"]):
         out.append({"hide": hide, "hide_line": hl, "prune": prune, "elaborate": ek, "form": form})
+        if ek != "none":
+            # ... and the same with the callback given as a callable object that happens to be falsy
+            out.append({"hide": hide, "hide_line": hl, "prune": prune, "elaborate": ek, "form": form,
+                        "callable_kind": "falsy_object"})
     return out
 
 
